@@ -1,4 +1,238 @@
-import Kap.Basic
+/-
+Driver for C15: reads cases of op lines produced by the Go harness (which ran the REAL storage.IndexedStore over
+a real Bolt file), replays every case on the model (`Kap.C15.step/get/list`, the raw bucket) and on the abstract-map
+spec, and judges
+  * the spec on the OBSERVED answers (operation results, get, index listings, pages, raw-bucket no-trace), and
+  * observed = model (results, get, listings, and the raw bucket content key by key).
+Known deviations are recognised only through explicit predicates on the input history (see `classify`).
+-/
+import Kap.Spec.C15
+open Kap Kap.C15
 
-/-- Driver for property C15 (replaced by the property's driver). -/
-def main : IO Unit := Kap.driverMain (fun _ _ => .badop "driver not implemented")
+namespace Kap.C15.Drv
+
+def s2l (s : String) : Str := s.toList
+def l2s (l : Str) : String := String.ofList l
+def escL (l : Str) : String := esc (l2s l)
+
+def parseObj (tok : String) : Option Obj :=
+  match tok.splitOn ";" with
+  | [i, g, t, d] => do
+    pure { id := s2l (← unesc i), grp := s2l (← unesc g), tag := s2l (← unesc t), data := s2l (← unesc d) }
+  | _ => none
+
+def renderObj (o : Obj) : String := s!"{escL o.id};{escL o.grp};{escL o.tag};{escL o.data}"
+def renderList (l : List String) : String := if l.isEmpty then "-" else ",".intercalate l
+
+def parseSel : String → Option Sel
+  | "id" => some .id | "grp" => some .grp | "tag" => some .tag | _ => none
+
+def parseIndex (tok : String) : Option Index :=
+  match tok.splitOn ";" with
+  | [n, u, s] => do pure { name := s2l (← unesc n), unique := u == "u", sel := ← parseSel s }
+  | _ => none
+
+def parseFault (tok : String) : Option Fault :=
+  if tok == "-" then some .none
+  else if tok == "c" then some .commit
+  else if tok.startsWith "w" then (tok.drop 1).toString.toNat?.map Fault.write
+  else none
+
+def renderErr : Option Err → String
+  | none => "ok"
+  | some .exists_ => "err:exists"
+  | some .missing => "err:missing"
+  | some .io => "err:io"
+  | some .other => "err:other"
+
+def parseRes : String → Option (Option Err)
+  | "ok" => some none
+  | "err:exists" => some (some .exists_)
+  | "err:missing" => some (some .missing)
+  | "err:io" => some (some .io)
+  | "err:other" => some (some .other)
+  | _ => none
+
+def parseOp (ts : List String) : Option Op :=
+  match ts with
+  | ["create", i, g, t, d, f] => do
+    pure (.create { id := s2l (← unesc i), grp := s2l (← unesc g), tag := s2l (← unesc t), data := s2l (← unesc d) } (← parseFault f))
+  | ["put", i, g, t, d, f] => do
+    pure (.put { id := s2l (← unesc i), grp := s2l (← unesc g), tag := s2l (← unesc t), data := s2l (← unesc d) } (← parseFault f))
+  | ["replace", i, g, t, d, f] => do
+    pure (.replace { id := s2l (← unesc i), grp := s2l (← unesc g), tag := s2l (← unesc t), data := s2l (← unesc d) } (← parseFault f))
+  | ["delete", i, f] => do pure (.delete (s2l (← unesc i)) (← parseFault f))
+  | ["rebuild", f] => do pure (.rebuild (← parseFault f))
+  | ["reopen"] => some .reopen
+  | _ => none
+
+def renderDump (kv : KV) : String :=
+  renderList (kv.map (fun e => match e.2 with
+    | .obj o => s!"{escL e.1}=o;{renderObj o}"
+    | .ref r => s!"{escL e.1}=r;{escL r}"))
+
+def renderGet : Except Err Obj → String
+  | .ok o => s!"ok {renderObj o}"
+  | .error e => renderErr (some e)
+
+def renderObjs : Except Err (List Obj) → String
+  | .ok os => s!"ok {renderList (os.map renderObj)}"
+  | .error e => renderErr (some e)
+
+/-- `a` is a proper prefix of `b` and the next character of `b` sorts below '/'. -/
+def lowSepPair (a b : Str) : Bool :=
+  a.isPrefixOf b && (match b.drop a.length with | ch :: _ => decide (ch < '/') | [] => false)
+
+/-- Deviation `index-order-separator`: a non-unique index whose stored values contain such a pair. -/
+def lowSepDev (i : Index) (m : Abs) : Bool :=
+  !i.unique && m.any (fun a => m.any (fun b => lowSepPair (i.sel.get a) (i.sel.get b)))
+
+structure St where
+  cfg : Cfg := { pfx := ['p'], indexes := [⟨['i', 'd'], true, .id⟩, ⟨['g', 'r', 'p'], false, .grp⟩] }
+  kv : KV := []
+  m : Abs := []
+  illFormed : Bool := false     -- an ill-formed object (or configuration) has been stored
+  uniqViol : Bool := false      -- two stored objects shared a value of a unique index
+  prevDump : Option String := none
+  dumpValid : Bool := false     -- no successful mutation since `prevDump`
+  maxStored : Nat := 0
+  interesting : Bool := false
+  branches : List String := []
+
+def addBr (st : St) (b : String) : St := if st.branches.contains b then st else { st with branches := b :: st.branches }
+def addBrs (st : St) (bs : List String) : St := bs.foldl addBr st
+
+/-- Explain a spec failure on the observed output: only by a recorded deviation whose input predicate holds AND
+whose predicted (model) output is exactly what was observed. -/
+def classify (st : St) (clause detail : String) (modelAgrees : Bool) (orderOnly : Bool) : Verdict :=
+  if modelAgrees && st.illFormed then .known "path-clean-keys" s!"{clause} {detail}"
+  else if modelAgrees && st.uniqViol then .known "unique-index-no-check" s!"{clause} {detail}"
+  else if modelAgrees && orderOnly then .known "index-order-separator" s!"{clause} {detail}"
+  else .specfail clause detail
+
+def opBranches (st : St) (op : Op) (res : Option Err) : List String :=
+  let c := st.cfg
+  let putBr (name : String) (o : Obj) : List String :=
+    match getTx c st.kv o.id with
+    | .ok old =>
+      [s!"{name}-existing"] ++
+      (c.indexes.map (fun i =>
+        if indexKey c i.name (i.valueOf old) != indexKey c i.name (i.valueOf o) then "idx-key-changed" else "idx-key-same"))
+    | .error .missing => [s!"{name}-absent"]
+    | .error _ => [s!"{name}-undecodable"]
+  let f := match op.fault, res with
+    | .none, _ => []
+    | .write n, some .io => [s!"fault-write-hit-{min n 4}"]
+    | .commit, some .io => ["fault-commit-hit"]
+    | _, _ => ["fault-not-reached"]
+  f ++ match op with
+  | .create o _ => putBr "create" o
+  | .put o _ => putBr "put" o
+  | .replace o _ => putBr "replace" o
+  | .delete id _ => (match getTx c st.kv id with | .ok _ => ["delete-present"] | .error .missing => ["delete-absent"] | _ => ["delete-undecodable"])
+  | .rebuild _ => [if st.kv.isEmpty then "rebuild-empty" else "rebuild-nonempty"]
+  | .reopen => ["reopen"]
+
+def listBranches (st : St) (i : Index) (pat : Str) (off lim : Int) (rev : Bool) : List String :=
+  let n : Int := (indexIds st.cfg st.kv i.name false).length
+  let matched : Int := ((indexIds st.cfg st.kv i.name false).filterMap id |>.filter (matchFn pat)).length
+  let dir := indexDir st.cfg i.name
+  [if i.unique then "list-unique-index" else "list-composite-index"] ++
+  (if rev then ["list-reverse"] else []) ++
+  (if pat != [] then ["list-pattern"] else []) ++
+  (if lim < 0 then ["list-nolimit"] else if lim == 0 then ["list-limit0"] else []) ++
+  (if lim ≥ 0 && off + lim > n then ["list-upper-clamped"] else []) ++
+  (if lim > 0 && matched > off + lim then ["list-page-cut"] else []) ++
+  (if off > 0 && matched > 0 then ["list-offset-skip"] else []) ++
+  (if off ≥ matched && matched > 0 then ["list-offset-beyond"] else []) ++
+  (if (st.kv.dropWhile (fun e => decide (e.1 < dir))).length < st.kv.length then ["kvlist-seek-skips"] else []) ++
+  (if (kvList st.kv dir).length < (st.kv.dropWhile (fun e => decide (e.1 < dir))).length then ["kvlist-stops-early"] else [])
+
+def stateBranches (st : St) : List String :=
+  (if st.m.any (fun a => st.m.any (fun b => a.id != b.id && a.id.isPrefixOf b.id)) then ["id-prefix-of-id"] else []) ++
+  (if st.cfg.indexes.any (fun i => lowSepDev i st.m) then ["low-separator-values"] else []) ++
+  (if st.illFormed then ["ill-formed-stored"] else []) ++
+  (if st.uniqViol then ["unique-value-shared"] else [])
+
+def judge (_id : String) (lines : Array String) : Verdict := Id.run do
+  let mut st : St := {}
+  for l in lines do
+    let (opT, obs) := splitObs (tokens l)
+    let obsS := " ".intercalate obs
+    match opT with
+    | ["cfg", p, specs] =>
+      let some p := unesc p | return .badop l
+      let some idx := (specs.splitOn ",").mapM parseIndex | return .badop l
+      st := { st with cfg := { pfx := s2l p, indexes := idx } }
+      if !st.cfg.wf then st := { st with illFormed := true }
+    | ["get", i] =>
+      let some i := unesc i | return .badop l
+      let id := s2l i
+      let model := renderGet (get st.cfg st.kv id)
+      let sp := match absGet st.m id with | some o => s!"ok {renderObj o}" | none => "err:missing"
+      st := addBr st (if (absGet st.m id).isSome then "get-stored" else "get-absent")
+      if obsS != sp then return classify st "get-returns-last-stored" s!"get {esc i}: spec {sp} observed {obsS}" (obsS == model) false
+      if obsS != model then return .mismatch s!"get {esc i}: model {model} observed {obsS}"
+    | ["list", ix, pat, off, lim, rev] =>
+      let some ix := unesc ix | return .badop l
+      let some pat := unesc pat | return .badop l
+      let some off := off.toInt? | return .badop l
+      let some lim := lim.toInt? | return .badop l
+      let pat := s2l pat
+      if pat.any (fun ch => ch == '[' || ch == '\\') then return .badop s!"pattern outside the modelled glob subset: {l}"
+      let rev := rev == "1"
+      let some i := st.cfg.indexes.find? (fun i => i.name == s2l ix) | return .badop s!"unknown index {l}"
+      st := addBrs st (listBranches st i pat off lim rev)
+      let model := renderObjs (list st.cfg st.kv i.name pat off lim rev)
+      let spL := specList i.sel st.m (matchFn pat) off lim rev
+      let sp := s!"ok {renderList (spL.map renderObj)}"
+      let full := pat == [] && off == 0 && (lim < 0 || lim ≥ 1000)
+      let clause := if full then "index-lists-exactly-stored-in-order" else "page-is-slice-of-listing"
+      if obsS != sp then
+        -- order-only deviation: the low-separator predicate holds and the page computed from the listing in
+        -- composite-key order is what was observed (= model)
+        let orderOnly := lowSepDev i st.m
+        return classify st clause s!"list {esc ix} {escL pat} {off} {lim} {rev}: spec {sp} observed {obsS}" (obsS == model) orderOnly
+      if obsS != model then return .mismatch s!"list {esc ix}: model {model} observed {obsS}"
+    | ["dump"] =>
+      if st.dumpValid then
+        if st.prevDump != some obsS then
+          return .specfail "failed-op-leaves-no-trace" s!"raw bucket changed without a committed operation: before {st.prevDump.getD "?"} after {obsS}"
+      let model := renderDump st.kv
+      if obsS != model then
+        return .mismatch s!"dump: model {model} observed {obsS}"
+      st := { st with prevDump := some obsS, dumpValid := true }
+    | _ =>
+      match parseOp opT with
+      | some op =>
+        let some res := (match obs with | [r] => parseRes r | [] => (if opT == ["reopen"] then some none else none) | _ => none)
+          | return (if obs == ["panic"] then .specfail "no-panic" l else .badop l)
+        st := addBrs st (opBranches st op res)
+        let (kv', mres) := step st.cfg st.kv op
+        match specStep st.m op res with
+        | none =>
+          let (_, r) := specApply st.m op
+          return classify st "operation-result" s!"{" ".intercalate opT}: spec {renderErr r} observed {renderErr res}" (res == mres) false
+        | some m' =>
+          if res != mres then return .mismatch s!"{" ".intercalate opT}: model {renderErr mres} observed {renderErr res}"
+          let committed := res == none && opT != ["reopen"]
+          if committed then
+            match op.obj? with
+            | some o => if !st.cfg.wfObj o then st := { st with illFormed := true }
+            | none => pure ()
+          if res == none then
+            match op with
+            | .delete _ _ => if (absGet st.m (match op with | .delete id _ => id | _ => [])).isSome then st := { st with interesting := true }
+            | _ => pure ()
+          if (opBranches st op res).any (fun b => b == "idx-key-changed" || b.startsWith "fault-write-hit" || b == "fault-commit-hit") then
+            st := { st with interesting := true }
+          st := { st with kv := kv', m := m', dumpValid := st.dumpValid && !committed,
+                          maxStored := max st.maxStored m'.length }
+          if !uniqueOK st.cfg st.m then st := { st with uniqViol := true }
+          st := addBrs st (stateBranches st)
+      | none => return .badop l
+  return .ok (st.maxStored ≥ 2 && st.interesting) st.branches.reverse
+
+end Kap.C15.Drv
+
+def main : IO Unit := Kap.driverMain Kap.C15.Drv.judge
